@@ -16,8 +16,10 @@ Oracle : every way returns a module equal to loads(label text alone); with the
          dumps(m, **kw) (UTF-8 for binary targets) and the return value is the
          number of characters / bytes written.
 """
+import codecs
 import io
 import os
+import tempfile
 import random
 import pathlib
 import shutil
@@ -304,7 +306,10 @@ def load_all_ways(label, data):
     return None
 
 
-TARGETS = ["path-str", "path-Path", "StringIO", "text-file", "BytesIO", "binary-file"]
+TARGETS = ["path-str", "path-Path", "StringIO", "text-file", "BytesIO", "binary-file",
+           # text and binary streams that are not io.TextIOBase / io.BufferedIOBase
+           # instances: the tempfile wrappers and a codecs stream writer
+           "tempfile-text", "tempfile-binary", "spooled-text", "codecs-writer"]
 
 
 def dump_all_targets(enc, cfg, spec):
@@ -345,6 +350,33 @@ def dump_all_targets(enc, cfg, spec):
                     ret = pvl.dump(m, f, encoder=e)
                 got = open(path, "rb").read()
                 wantdata, wantret = text.encode("utf-8"), len(text)
+            elif target == "tempfile-text":
+                with tempfile.NamedTemporaryFile("w+", encoding="utf-8", newline="",
+                                                 dir=d) as f:
+                    ret = pvl.dump(m, f, encoder=e)
+                    f.seek(0)
+                    got = f.read()
+                wantdata, wantret = text, len(text)
+            elif target == "spooled-text":
+                with tempfile.SpooledTemporaryFile(mode="w+", encoding="utf-8",
+                                                   newline="", dir=d) as f:
+                    ret = pvl.dump(m, f, encoder=e)
+                    f.seek(0)
+                    got = f.read()
+                wantdata, wantret = text, len(text)
+            elif target == "tempfile-binary":
+                with tempfile.NamedTemporaryFile("w+b", dir=d) as f:
+                    ret = pvl.dump(m, f, encoder=e)
+                    f.seek(0)
+                    got = f.read()
+                wantdata = text.encode("utf-8")
+                wantret = len(wantdata)
+            elif target == "codecs-writer":
+                with codecs.open(path, "w", "utf-8") as f:
+                    ret = pvl.dump(m, f, encoder=e)
+                got = open(path, "rb").read()
+                wantdata = text.encode("utf-8")
+                wantret = ret      # a StreamWriter's write() reports nothing
             elif target == "BytesIO":
                 b = io.BytesIO()
                 ret = pvl.dump(m, b, encoder=e)
